@@ -38,19 +38,22 @@ for item in "${args[@]}"; do
   if ! (cd "$VERIF/sim" && cargo build --release --offline >"$OUT/build.log" 2>&1); then
     echo "$name: DOES NOT COMPILE"; restore; fails=$((fails+1)); continue
   fi
-  "$VERIF/sim/target/release/simio" run "$prop" quick --root "$ROOT" >"$OUT/run.log" 2>&1; rc=$?
+  # through ./check, so that the address-space cap and the crash isolation apply as they would
+  SIMIO_OUT_ROOT="$ROOT" "$VERIF/check" "$prop" quick >"$OUT/run.log" 2>&1; rc=$?
   viol="$(grep -ac '^VIOLATION' "$OUT/run.log")"
   clauses="$(grep -a '^violation:' "$OUT/run.log" | sed -E 's/.*clause=([^ ]+).*/\1/' | sort -u | tr '\n' ' ')"
   replay_ok="-"
   if [ "$viol" -gt 0 ]; then
     f="$(grep -a '^VIOLATION' "$OUT/run.log" | head -1 | sed -E 's/.*replay=//')"
-    "$VERIF/sim/target/release/simio" replay "$f" --root "$ROOT" >"$OUT/replay.log" 2>&1 && replay_ok="REPLAY-DID-NOT-REPRODUCE" || replay_ok="replay-reproduces"
+    SIMIO_OUT_ROOT="$ROOT" "$VERIF/check" replay "$f" >"$OUT/replay.log" 2>&1 && replay_ok="REPLAY-DID-NOT-REPRODUCE" || replay_ok="replay-reproduces"
     min="$(jq -c '.minimisation' "$f")"
   else min="-"; fi
   expect_quiet=0
   case "$name" in benign-*) expect_quiet=1 ;; esac
   if [ -f "$item/meta.json" ] && [ "$(jq -r 'if has("breaks_property_as_stated") then .breaks_property_as_stated else true end' "$item/meta.json")" = "false" ]; then expect_quiet=1; fi
+  if [ -f "$item/meta.json" ] && [ "$(jq -r '.expected_missed // false' "$item/meta.json")" = "true" ]; then expect_quiet=2; fi
   case "$expect_quiet" in
+    2) if [ $rc = 0 ]; then verdict="missed (documented limit of the technique)"; else verdict="caught (beyond expectation)"; fi ;;
     1) if [ $rc = 0 ]; then verdict="quiet (as required)"; else verdict="FALSE ALARM"; fails=$((fails+1)); fi ;;
     *) if [ $rc = 1 ] && [ "$viol" -gt 0 ] && [ "$replay_ok" = "replay-reproduces" ]; then verdict="caught"; else verdict="MISSED"; fails=$((fails+1)); fi ;;
   esac
